@@ -212,7 +212,16 @@ def jobs_for(ctx):
 
 
 def dispatch(job):
-    return globals()[job["fn"]](job)
+    try:
+        return globals()[job["fn"]](job)
+    finally:
+        # compiled executables keep the (large) embedded tables alive: drop them after every job
+        import gc
+
+        import jax
+
+        jax.clear_caches()
+        gc.collect()
 
 
 def run(ctx):
